@@ -20,6 +20,7 @@ import Driver.Util
       pback r|d            parse the reference text back: same COUNT | diff .. | null:ERRNO:FATAL | ub:..
       pcli q|Q             the "-- Target nodes --" line of opt_list (1024-byte buffer)
       pxlist               list_push_hostlist: the text, or `diverge`
+      pranges s|p          hostlist_shift_range / hostlist_pop_range until NULL: HEX|HEX|.. or none
 -/
 namespace Driver.PrintDrv
 open PdshVerif PdshVerif.Hostlist PdshVerif.Hostlist.Print
@@ -144,6 +145,16 @@ def step (st : St) (line : String) : St × String :=
         match firstDiff h.hosts want 0 with
         | none => (st, s!"same {want.length}")
         | some i => (st, s!"diff {i} {h.hosts.length} {want.length}")
+  | ["pranges", which] =>
+    -- hostlist_shift_range / hostlist_pop_range until NULL: the strings they return, `|`-separated
+    -- on the list re-built with hostlist_push_range (joinable neighbours joined), as the harness does
+    let rs0 := (st.rs.foldl pushRange HL.new).ranges.toList
+    let calls := if which == "s" then shiftRangeCalls (rs0.length + 1) rs0 else popRangeCalls (rs0.length + 1) rs0
+    let size := if which == "s" then SHIFTRANGEBUF else RANGEBUF
+    let outs := calls.map fun c =>
+      let oob := c.2.oob size
+      Hex.encodeChars (content c.2 size).1 ++ (if oob.isEmpty then "" else "!oob")
+    (st, if outs.isEmpty then "none" else "|".intercalate outs)
   | ["pcli", which] =>
     match optList st.fixed (which == "Q") ⟨st.rs.toArray, 0⟩ with
     | (b, some s) => (st, Hex.encodeChars s ++ oobField b WCOLL_STR)
